@@ -85,12 +85,13 @@ class JobLedger:
         self.stops = {}       # (sender, namespec, target) -> step
         self.forced = {}      # (sender, namespec) -> (state, reason)
         self.order = []       # chronological [(kind, sender, namespec, target)]
-        self.lost = set()     # (sender, target idx): sender invalidated target
+        self.lost = set()     # (sender, target idx): sender sees target FAILED / STOPPED / ISOLATED
+        self.marks = set()    # ('invalidated', sender, target): the sender's state machine acknowledged the loss
 
     def key(self, c):
         return ('ledger', tuple(sorted(self.starts.items())), tuple(sorted(self.stops)),
                 tuple(sorted((k, v) for k, v in self.forced.items())), tuple(self.order[-12:]), len(self.order),
-                tuple(sorted(self.lost)))
+                tuple(sorted(self.lost)), tuple(sorted(self.marks)))
 
     def on_emit(self, w, rec):
         if rec['req'] == 'START_PROCESS':
@@ -114,8 +115,11 @@ class JobLedger:
         p = w.idx_of[peer_ident]
         if new in ('STOPPED', 'ISOLATED', 'FAILED'):
             self.lost.add((o, p))
+            if old == 'FAILED':
+                self.marks.add(('invalidated', o, p))
         elif new == 'RUNNING':
             self.lost.discard((o, p))
+            self.marks.discard(('invalidated', o, p))
 
 
 def ledger(w):
@@ -259,6 +263,8 @@ class StartOrderMonitor:
                 continue
             if (sender, q) in L.forced and L.forced[(sender, q)][0] == int(PS.FATAL):
                 failed = True
+            if (sender, t) in L.lost and ('invalidated', sender, t) in L.marks:
+                failed = True   # the host was lost (and invalidated by the sender) while the start was pending
             if pv and not pv['identifiers'] and (pv['statename'] == 'FATAL' or
                                                  (pv['statename'] == 'EXITED' and not pv['expected_exit']
                                                   and info['wait_exit'])):
@@ -550,7 +556,7 @@ class Jobs(Driver):
         options = {'synchro_options': 'LIST,TIMEOUT', 'synchro_timeout': '15'}
         options.update(cfg.get('options') or {})
         return make_scenario(n, config=options, rules=rules_xml(apps, aliases=cfg.get('aliases')), groups=groups,
-                             node_of=cfg.get('node_of'), nicks=cfg.get('nicks'))
+                             node_of=cfg.get('node_of'), nicks=cfg.get('nicks'), set_order=cfg.get('set_order'))
 
     def monitors(self, w, cfg, rv):
         n = w.n
